@@ -341,12 +341,13 @@ class Prefixed(BaseModel):
         return lhs <= rhs
 
     def __eq__(self, other) -> bool:
+        if not _comparable(other):
+            return False  # Never equal to non-numbers, e.g. `Literal`s, `None`
         lhs, rhs = _rounded(self, other)
         return lhs == rhs
 
     def __ne__(self, other) -> bool:
-        lhs, rhs = _rounded(self, other)
-        return lhs != rhs
+        return not self.__eq__(other)
 
     def __gt__(self, other) -> bool:
         lhs, rhs = _rounded(self, other)
@@ -376,6 +377,19 @@ def to_prefixed(v: Union[Prefixed, ToPrefixed]) -> Prefixed:
         return Prefixed(number=Decimal(v))
 
     raise RuntimeError(f"Cannot convert {v} to Prefixed number")
+
+
+def _comparable(other: Any) -> bool:
+    """Boolean indication of whether `other` is, or converts to, a `Prefixed` number."""
+    if isinstance(other, Prefixed):
+        return True
+    if isinstance(other, bool) or not isinstance(other, (int, float, str, Decimal)):
+        return False
+    try:
+        to_prefixed(other)
+    except Exception:
+        return False
+    return True
 
 
 def _add(lhs: Prefixed, rhs: Prefixed) -> Prefixed:
